@@ -140,6 +140,16 @@ def miContinuousOf (n1 n2 : Nat) (d12 d1 d2 : List α) (base : α) : Res α :=
     .ok ((zipWith3 (fun a b c => (a, b, c)) d12 d1 d2).foldl
       (fun s (t : α × α × α) => s + log (t.1 / (t.2.1 * t.2.2)) / log base) zero / ofInt (n1 : Int))
 
+/-! ### default arguments (declarations in VectorTools.h) -/
+
+/-- `bool unbiased = true` (VectorTools.h: cov, weighted cov, var, weighted var, sd, weighted sd) -/
+def dfltUnbiased : Bool := true
+/-- `bool normalizeWeights = true` (VectorTools.h: weighted mean, center, cov, var, sd, cor) -/
+def dfltNormalizeWeights : Bool := true
+/-- `double base = 2.7182818` (VectorTools.h: shannon, shannonDiscrete, miDiscrete,
+shannonContinuous, miContinuous) — the literal, not `e` -/
+def dfltBase : α := ofRat 27182818 10000000
+
 end Numeric2
 
 /-! ### set-like helpers, second part (VectorTools.h:509-534, 1747-1984); `==`, `<` are parameters -/
